@@ -141,6 +141,7 @@ def run(l, n, only=None):
             elif m["k"] % n != l or m["k"] in done:
                 continue
             r = run_one(l, m)
+            r["ts"] = time.time()
             f.write(json.dumps(r) + "\n")
             f.flush()
             print(m["k"], m["file"], m["line"], m["op"], repr(m["old"][:30]), "->", repr(m["new"][:30]), r["status"], r.get("caught_by", ""), flush=True)
@@ -151,7 +152,8 @@ def summary():
     for p in sorted(glob.glob(OUT + "/results_lane*.jsonl")):
         for ln in open(p):
             r = json.loads(ln)
-            rows[r["k"]] = r  # later entries (re-runs) win
+            if r["k"] not in rows or r.get("ts", 0) >= rows[r["k"]].get("ts", 0):
+                rows[r["k"]] = r  # the latest run of a mutant wins
     st = {}
     for r in rows.values():
         st[r["status"]] = st.get(r["status"], 0) + 1
